@@ -979,6 +979,244 @@ pub fn check_peer(case: &PeerCase, st: &mut Stats) -> Result<(), String> {
     })
 }
 
+// ---------------------------------------------------------------------------------------------
+// C10 `live_state`: hostile block-range announcements against a node whose block fetcher is running
+
+#[derive(Debug, Clone, Serialize, Deserialize, Hash)]
+pub struct StateCase {
+    /// Certified blocks that exist (the node stores none of them).
+    blocks: usize,
+    /// Announcements of the hostile peer: (first, kind of `last`: 0 none / 1 pre-genesis number / 2 certificate with that number, number, extremiser choices).
+    anns: Vec<(u64, u8, u64, Vec<u16>)>,
+}
+
+pub fn gen_state(ch: &mut Choices) -> StateCase {
+    let blocks = 2 + ch.below(3);
+    let num = |ch: &mut Choices| match ch.below(7) {
+        0 => u64::MAX,
+        1 => u64::MAX - 1,
+        2 => 0,
+        3 => 1,
+        4 => 1u64 << ch.below(64),
+        5 => ch.below(8) as u64,
+        _ => ch.u64(),
+    };
+    let k = 1 + ch.below(4);
+    let anns = (0..k)
+        .map(|_| {
+            let mutate = if ch.chance(1, 3) { (0..12).map(|_| ch.raw()).collect() } else { vec![] };
+            (if ch.chance(1, 2) { ch.below(4) as u64 } else { num(ch) }, ch.below(3) as u8, num(ch), mutate)
+        })
+        .collect();
+    StateCase { blocks, anns }
+}
+
+pub fn check_state(case: &StateCase, st: &mut Stats) -> Result<(), String> {
+    use rand::SeedableRng as _;
+    use zksync_consensus_engine::{testonly::in_memory, EngineManager};
+    use zksync_consensus_network::verif::{self as hook, gossip::Node, Mux, MuxConfig, NoiseTcp, Wire};
+    use zksync_consensus_roles::validator;
+    let rt = tokio::runtime::Builder::new_current_thread().enable_all().build().unwrap();
+    let r = common::guard(|| rt.block_on(async {
+        let ctx = &ctx::root();
+        let rng = &mut rand::rngs::StdRng::seed_from_u64(12);
+        let mut setup = validator::testonly::Setup::new_without_pregenesis(rng, 1);
+        setup.push_blocks_v2(rng, case.blocks);
+        let setup = &setup;
+        let first = setup.first_block().0;
+        let last = first + case.blocks as u64 - 1;
+        let nk = gen::node_keys();
+        let table = hook::rpc_table();
+        let cap = |name: &str| table.iter().find(|t| t.0 == name).map(|t| (t.1, t.2)).unwrap();
+        let (get_cap, get_inflight) = cap("get_block");
+        let (push_cap, _) = cap("push_block_store_state");
+        let st2 = &mut *st;
+        let res: Result<(), String> = scope::run!(ctx, |ctx, s| async move {
+            let st = st2;
+            let eng_a = in_memory::Engine::new_random(setup, validator::BlockNumber(first));
+            let (mgr_a, run_a) = EngineManager::new(ctx, Box::new(eng_a), zksync_concurrency::time::Duration::seconds(60)).await.map_err(|e| format!("INFRA: EngineManager::new: {e:?}"))?;
+            s.spawn_bg(async { run_a.run(ctx).await.map_err(|e| format!("INFRA: engine runner: {e:#}")) });
+            let mut cfg_a = crate::c12::gossip_cfg(&nk[9]);
+            cfg_a.rpc.get_block_timeout = None;
+            cfg_a.rpc.get_block_rate = zksync_concurrency::limiter::Rate::INF;
+            cfg_a.rpc.push_block_store_state_rate = zksync_concurrency::limiter::Rate::INF;
+            cfg_a.max_block_queue_size = 3;
+            let a = Arc::new(Node::new(cfg_a, mgr_a.clone(), Some(setup.epoch)));
+            {
+                let a = a.clone();
+                s.spawn_bg(async move {
+                    a.run_block_fetcher(ctx).await;
+                    Ok(())
+                });
+            }
+            let genesis = setup.genesis.hash();
+            // the handler task of a connection reports how it ended
+            let ended: Arc<Mutex<Vec<String>>> = Arc::default();
+            let connect = |key: usize, honest: bool| {
+                let a = a.clone();
+                let ended = ended.clone();
+                async move {
+                    let mut l = hook::TcpListener::bind().await.map_err(|e| format!("INFRA: bind: {e:#}"))?;
+                    let addr = l.addr();
+                    let dial = async { NoiseTcp::preface_connect(ctx, addr, false).await.map_err(|e| format!("INFRA: preface_connect: {e:?}")) };
+                    let acc = async {
+                        let tcp = l.accept(ctx).await.map_err(|e| format!("INFRA: accept: {e:?}"))?;
+                        NoiseTcp::preface_accept(ctx, tcp).await.map_err(|e| format!("INFRA: preface: {e:?}")).map(|x| x.0)
+                    };
+                    let (mine, theirs) = tokio::join!(dial, acc);
+                    let (mut mine, theirs) = (mine?, theirs?);
+                    s.spawn_bg(async move {
+                        let r = a.run_inbound_stream(ctx, theirs).await;
+                        ended.lock().unwrap().push(format!("{r:?}").chars().take(160).collect());
+                        Ok(())
+                    });
+                    let pcfg = crate::c12::gossip_cfg(&nk[key]);
+                    hook::gossip::handshake_outbound(ctx, &pcfg, genesis, &mut mine, &nk[9].public()).await.map_err(|e| format!("INFRA: handshake of a scripted peer: {e}"))?;
+                    let mut m = Mux::new(MuxConfig::rpc());
+                    let push = m.accept(ctx, push_cap, 1, zksync_concurrency::limiter::Rate::INF);
+                    let serve = m.connect(ctx, get_cap, get_inflight, zksync_concurrency::limiter::Rate::INF);
+                    let (stop_tx, stop_rx) = tokio::sync::oneshot::channel::<()>();
+                    s.spawn_bg(async move {
+                        // the multiplexer runs as a background task of a scope of its own: when the stop signal arrives
+                        // (or its sender is dropped) that scope is cancelled and the connection ends
+                        let _: Result<(), String> = scope::run!(ctx, |ctx, s2| async move {
+                            s2.spawn_bg(async move {
+                                let _ = m.run(ctx, mine).await;
+                                Ok(())
+                            });
+                            let _ = stop_rx.await;
+                            Ok(())
+                        })
+                        .await;
+                        Ok(())
+                    });
+                    let peer = Arc::new(Scripted { push, inbox: Arc::default(), acked: Arc::default(), held: Arc::default() });
+                    let p = peer.clone();
+                    s.spawn_bg(async move {
+                        while let Ok(mut call) = serve.open(ctx).await {
+                            let Ok(req) = call.recv_msg(ctx, Wire::GetBlockReq, 1024).await else { continue };
+                            let mut n = 0u64;
+                            for (i, b) in req.iter().skip(1).enumerate().take(10) {
+                                n |= ((*b & 0x7f) as u64) << (7 * i);
+                            }
+                            p.inbox.lock().unwrap().push((n, 0));
+                            if honest {
+                                if let Some(validator::Block::FinalV2(fb)) = setup.blocks.get((n.wrapping_sub(first)) as usize) {
+                                    let _ = call.write_all(ctx, &rpc_frame(&pb_len(3, &zksync_protobuf::encode(fb)))).await;
+                                    let _ = call.flush(ctx).await;
+                                }
+                                call.close_write();
+                            } else {
+                                // the hostile peer never answers
+                                p.held.lock().unwrap().push((n, call));
+                            }
+                        }
+                        Ok(())
+                    });
+                    Ok::<_, String>((peer, stop_tx))
+                }
+            };
+            // 1. the hostile peer: announcements with extreme numbers, some of them mutated at wire level
+            let (mut hostile, mut stop) = connect(0, false).await?;
+            let qc = match &setup.blocks[0] {
+                validator::Block::FinalV2(b) => b.justification.clone(),
+                _ => return Err("harness: pre-genesis block in the chain material".into()),
+            };
+            let desc = Wire::PushBlockStoreState.descriptor();
+            let (mut acked, mut refused, mut mutated) = (0u64, 0u64, 0u64);
+            let mut identity = 1usize;
+            for (af, kind, num, mutate) in &case.anns {
+                let mut state = vec![0x08];
+                pb_varint(&mut state, *af);
+                match kind {
+                    0 => {}
+                    1 => {
+                        let mut x = vec![0x10];
+                        pb_varint(&mut x, *num);
+                        state.extend(pb_len(2, &x));
+                    }
+                    _ => {
+                        let mut q = qc.clone();
+                        q.message.proposal.number = validator::BlockNumber(*num);
+                        state.extend(pb_len(2, &pb_len(3, &zksync_protobuf::encode(&q))));
+                    }
+                }
+                let mut req = pb_len(3, &state);
+                if !mutate.is_empty() {
+                    req = gen::mutate::extremise(&mut Choices::new(mutate.clone()), &req, &desc).0;
+                    mutated += 1;
+                }
+                let Ok(Ok(mut call)) = tokio::time::timeout(std::time::Duration::from_secs(10), hostile.push.open(ctx)).await else {
+                    return Err("INFRA: the node did not open a push_block_store_state sub-stream within 10 s".into());
+                };
+                let _ = call.write_all(ctx, &rpc_frame(&req)).await;
+                let _ = call.flush(ctx).await;
+                call.close_write();
+                let resp = tokio::time::timeout(std::time::Duration::from_secs(10), call.read_exact(ctx, 4)).await.map_err(|_| "INFRA: an announcement was neither acknowledged nor refused within 10 s".to_string())?;
+                if matches!(&resp, Ok(h) if h.len() == 4) {
+                    acked += 1;
+                    // give the node's get_block loop of this connection a chance to look at the announced state
+                    for _ in 0..20 {
+                        tokio::time::sleep(std::time::Duration::from_millis(1)).await;
+                        if !hostile.inbox.lock().unwrap().is_empty() {
+                            break;
+                        }
+                    }
+                } else {
+                    // the node dropped the peer: come back under another identity
+                    refused += 1;
+                    let _ = stop.send(());
+                    identity += 1;
+                    (hostile, stop) = connect(identity % 8, false).await?;
+                }
+            }
+            // 2. the hostile connection ends; whatever it had been asked for is wanted again
+            let asked: Vec<u64> = hostile.inbox.lock().unwrap().iter().map(|x| x.0).collect();
+            let _ = stop.send(());
+            drop(hostile);
+            // 3. an honest peer that stores everything: the node must still fetch the whole chain
+            let (honest, _keep) = connect(8, true).await?;
+            honest.announce(ctx, setup, first, last).await?;
+            let mut ok = false;
+            for _ in 0..5000 {
+                if mgr_a.queued().next().0 > last {
+                    ok = true;
+                    break;
+                }
+                tokio::time::sleep(std::time::Duration::from_millis(2)).await;
+            }
+            st.count("announcements_acknowledged", acked);
+            st.count("announcements_refused", refused);
+            st.count("announcements_mutated_at_wire_level", mutated);
+            st.count("requests_sent_to_the_hostile_peer", asked.len() as u64);
+            if !ok {
+                return Err(format!(
+                    "after hostile block-range announcements {:?} (acknowledged {acked}, refused {refused}) and the end of that connection, the node did not fetch blocks {first}..={last} from an honest peer within 10 s (it stores up to {}); connection handlers ended with {:?}",
+                    case.anns.iter().map(|a| (a.0, a.1, a.2)).collect::<Vec<_>>(), mgr_a.queued().next().0, ended.lock().unwrap()
+                ));
+            }
+            for b in &setup.blocks {
+                let got = mgr_a.get_block(ctx, b.number()).await.map_err(|e| format!("INFRA: get_block: {e:?}"))?;
+                if got.as_ref() != Some(b) {
+                    return Err(format!("block {} stored by the node differs from the certified block", b.number().0));
+                }
+            }
+            if acked > 0 {
+                st.nontrivial(common::fingerprint(case));
+            }
+            st.sample(|| serde_json::json!({"case": case, "hostile_peer_was_asked_for": asked}));
+            Ok(())
+        })
+        .await;
+        res
+    }));
+    match r {
+        Ok(()) => Ok(()),
+        Err(e) if e.starts_with("INFRA") => Err(e),
+        Err(e) => Err(format!("hostile block-range announcements {:?}: {e}", case.anns.iter().map(|a| (a.0, a.1, a.2)).collect::<Vec<_>>())),
+    }
+}
+
 pub fn main(env: &Env) -> i32 {
     if let Mode::Replay(path) = env.mode() {
         let (part, case) = Env::read_replay(&path);
